@@ -1,12 +1,16 @@
 #!/bin/bash
-# usage: try_seed.sh <patch.diff> <Cxx> [vcheck args...]   -- applies a seeded change to /repo, runs the check, reverts.
-# /repo must have a clean working tree (commit fixes first).
+# usage: try_seed.sh <patch.diff> <Cxx> [vcheck args...]
+# Runs a check against a seeded change WITHOUT touching /repo: the patch is applied in a throw-away
+# git worktree of /repo's HEAD and the check slices from there (VERIF_REPO); evidence goes to a scratch dir.
+# (Equivalent to `git -C /repo apply`, run, `git -C /repo checkout -- .` for these checks, which only read
+# $VERIF_REPO/oxidize-pdf-core/src, but safe to run while other checks use /repo.)
 set -u
-P=$1; C=$2; shift 2
-cd /repo || exit 2
-if [ -n "$(git status --porcelain --untracked-files=no)" ]; then echo "repo dirty"; exit 2; fi
-git apply "$P" || { echo "patch does not apply"; exit 2; }
-cd /verif && ./vcheck "$C" "$@"; rc=$?
-git -C /repo checkout -- .
+P=$(readlink -f "$1"); C=$2; shift 2
+W=/var/tmp/seedrepo-$$
+git -C /repo worktree add -q --detach "$W" HEAD || exit 2
+( cd "$W" && git apply "$P" ) || { echo "patch does not apply"; git -C /repo worktree remove --force "$W"; exit 2; }
+cd /verif && VERIF_REPO="$W" VERIF_EVIDENCE=/var/tmp/seed-evidence-$$ ./vcheck "$C" "$@"; rc=$?
+git -C /repo worktree remove --force "$W"
+rm -rf /var/tmp/seed-evidence-$$
 echo "seed $P on $C -> exit $rc"
 exit $rc
